@@ -96,6 +96,12 @@ def probes(syn, key, val):
                 return (cls, dict(expected=expected, actual=out))
         return pred
 
+    def exact(expected, cls):
+        def pred(out):
+            if out != expected:
+                return (cls, dict(expected=expected, actual=out))
+        return pred
+
     def eq_nocase(expected, cls):
         def pred(out):
             if out.startswith('EXC:'):
@@ -105,6 +111,9 @@ def probes(syn, key, val):
         return pred
     yield 'own-key', key, {}, eq(own, 'own-key-selects-other-snippet')
     yield 'global-scope', key, {'context': {'name': '@@global'}}, eq(own, 'scope:global-differs')
+    # an exactly typed key is a perfect match: no minimum score may reject it
+    yield 'own-key-minscore-1', key, {'options': {'output.field': field, 'stylesheet.fuzzySearchMinScore': 1}}, eq(own, 'own-key-rejected-by-min-score')
+    yield 'own-key-minscore-half', key, {'options': {'output.field': field, 'stylesheet.fuzzySearchMinScore': 0.5}}, eq(own, 'own-key-rejected-by-min-score')
     if c[0] == 'prop':
         for w in keywords(c[2]):
             want = c[1] + between + w + after
@@ -114,6 +123,9 @@ def probes(syn, key, val):
     yield 'override', key, {'snippets': {key: 'foo-prop:bar'}}, eq('foo-prop' + between + 'bar' + after, 'user-override-ignored:key=' + key)
     yield 'override-raw', key, {'snippets': {key: 'raw ${1:body} text'}}, eq('raw body text', 'user-override-ignored:key=' + key)
     yield 'new-key', 'zzq', {'snippets': {'zzq': 'foo-prop:bar', key: val}}, eq('foo-prop' + between + 'bar' + after, 'new-key-unreachable')
+    # raw bodies are compared with their tabstops (exact text): leading, adjacent and trailing tabstops
+    for body in ('${1:sel} {\n\t${0}\n}', '-moz-${1:p}${2}: ${3};', 'a ${1} b ${2:c}'):
+        yield 'new-key-raw', 'zzr', {'snippets': {'zzr': body, key: val}}, exact(body, 'raw-body-tabstops-changed')
 
     def section(out):
         if out.startswith('EXC:'):
